@@ -10,7 +10,7 @@ from defusedxml.sax import make_parser
 from codemodder.codemods.base_transformer import BaseTransformerPipeline
 from codemodder.codetf import Change, ChangeSet
 from codemodder.context import CodemodExecutionContext
-from codemodder.diff import create_diff
+from codemodder.diff import create_diff, split_lines
 from codemodder.file_context import FileContext
 from codemodder.logging import logger
 from codemodder.result import Result
@@ -233,10 +233,8 @@ class XMLTransformerPipeline(BaseTransformerPipeline):
             new_lines = output_file.readlines()
             # TODO there's a failure potential here for very large files
             try:
-                original_lines = (
-                    file_context.file_path.read_bytes()
-                    .decode("utf-8")
-                    .splitlines(keepends=True)
+                original_lines = split_lines(
+                    file_context.file_path.read_bytes().decode("utf-8")
                 )
             except Exception:
                 file_context.add_failure(file_path, reason := "Failed to read XML file")
